@@ -98,7 +98,7 @@ def gen_plan(rng, name, front, start):
 
 
 class World(object):
-    def __init__(self, front, tls, T, plans):
+    def __init__(self, front, tls, T, plans, own=False):
         from ioflo.aio.tcp import serving, clienting
         from ioflo.aio.http import serving as hserving
         self.front_name = front
@@ -109,17 +109,30 @@ class World(object):
         self.tick = 0
         self.plans = {p.name: p for p in plans}
         self.wl = RecWireLog(clock=self.clk)
-        if tls:
-            self.srv = serving.ServerTls(ha=(HOST, 0), store=self.clk, timeout=T, wlog=self.wl, certify=ssl.CERT_NONE,
-                                         keypath=CERTS + "server_key.pem", certpath=CERTS + "server_cert.pem")
+        if own:
+            # the Valet builds its servant itself from scheme / address / timeout (a port has to be named: 0 means the
+            # scheme's default port there)
+            kw = dict(scheme="https", certify=ssl.CERT_NONE, keypath=CERTS + "server_key.pem",
+                      certpath=CERTS + "server_cert.pem") if tls else dict(scheme="http")
+            for port in net.listen_ports():
+                self.front = hserving.Valet(store=self.clk, app=self.app, timeout=T, ha=(HOST, port), wlog=self.wl, **kw)
+                self.srv = self.front.servant
+                if self.srv.reopen():
+                    break
+            else:
+                raise Inconclusive("cannot open a loopback listen socket")
         else:
-            self.srv = serving.Server(ha=(HOST, 0), store=self.clk, timeout=T, wlog=self.wl)
-        if front == "Valet":
-            self.front = hserving.Valet(servant=self.srv, store=self.clk, app=self.app, timeout=T)
-        else:
-            self.front = hserving.Porter(servant=self.srv, store=self.clk, timeout=T)
-        if not self.srv.reopen():
-            raise Inconclusive("cannot open a loopback listen socket")
+            if tls:
+                self.srv = serving.ServerTls(ha=(HOST, 0), store=self.clk, timeout=T, wlog=self.wl, certify=ssl.CERT_NONE,
+                                             keypath=CERTS + "server_key.pem", certpath=CERTS + "server_cert.pem")
+            else:
+                self.srv = serving.Server(ha=(HOST, 0), store=self.clk, timeout=T, wlog=self.wl)
+            if front == "Valet":
+                self.front = hserving.Valet(servant=self.srv, store=self.clk, app=self.app, timeout=T)
+            else:
+                self.front = hserving.Porter(servant=self.srv, store=self.clk, timeout=T)
+            if not self.srv.reopen():
+                raise Inconclusive("cannot open a loopback listen socket")
         self.srv.eha = self.srv.ha       # ServerTls compares accepted sockets with .eha; port 0 is only known now
         if any(p.big for p in plans):
             import socket as _socket        # accepted sockets inherit the small send buffer (and no auto-tuning)
@@ -176,13 +189,19 @@ def run_case(ctx, rng, idx):
     front = rng.choice(("Valet", "Porter"))
     tls = rng.random() < 0.5
     T = rng.choice((1.0, 2.0))
+    own = front == "Valet" and rng.random() < 0.3
+    if own:
+        T = rng.choice((1.0, 2.0, 8.0, 8.0))      # also a timeout beyond the class default
     nconn = rng.choice((1, 1, 2))
     plans = [gen_plan(rng, "c%da" % idx, front, 0)]
     if nconn == 2:
         plans.append(gen_plan(rng, "c%db" % idx, front, rng.choice((0, 1, 3, 5, 9))))
     sock = "tls" if tls else "plain"
     desc = {"front": front, "socket": sock, "timeout": T, "ticks_per_timeout": TICKS, "plans": [p.describe() for p in plans]}
-    W = World(front, tls, T, plans)
+    W = World(front, tls, T, plans, own=own)
+    if own:
+        ctx.hit("valet_builds_its_own_servant_" + sock)
+        desc["servant"] = "built by the Valet"
     loop = Loop(W.clk, wall_limit=30.0)
     rounds_per_tick = 3 if tls else 2
     info = {}       # plan name -> dict(ca, accept, persisted, closed, client_closed)
@@ -346,4 +365,5 @@ def run(ctx):
         for front in ("Valet", "Porter"):
             ctx.floor("cases_%s_%s" % (front, sock), ctx.pick(40, 600))
     ctx.floor("distinct_nontrivial", ctx.pick(150, 2000))
+        ctx.floor("valet_builds_its_own_servant_%s" % sock, ctx.pick(8, 150))
     ctx.floor("big_body_transfer_longer_than_timeout", ctx.pick(8, 100))
